@@ -298,12 +298,22 @@ func fillLeaf(rng *rand.Rand, v reflect.Value, o ValueOpts) {
 		if rng.Intn(3) == 0 {
 			x = int64(rng.Intn(20)) - 5
 		}
+		if rng.Intn(16) == 0 {
+			// the extremes of the type (the most negative value has no positive counterpart)
+			x = int64(-1) << uint(bits-1)
+			if rng.Intn(2) == 0 {
+				x = -(x + 1)
+			}
+		}
 		v.SetInt(x)
 	case reflect.Uint, reflect.Uint8, reflect.Uint16, reflect.Uint32, reflect.Uint64, reflect.Uintptr:
 		bits := v.Type().Bits()
 		x := rng.Uint64() >> uint(64-bits)
 		if rng.Intn(3) == 0 {
 			x = uint64(rng.Intn(20))
+		}
+		if rng.Intn(16) == 0 {
+			x = ^uint64(0) >> uint(64-bits)
 		}
 		v.SetUint(x)
 	case reflect.Float32, reflect.Float64:
